@@ -100,6 +100,13 @@ def run(ctx):
         reg, ws = arm_writes(s)
         cw = [w for w in ws if effects.root_of(w[0])[1] == [CTX]]
         span = b.blocks[s]['term'].get('span') if b.blocks[s]['term'] else tm['span']
+        for w in cw:
+            inner = w[3]
+            ib = fx.body(inner[0])
+            if ib is not None and ib is not b and not set(kinds) & {'Tags'}:
+                okm = q.must_pass(ib, 0, inner[1])
+                ctx.inst('S1', '%s#always' % '/'.join(kinds), okm, 'context write in %s happens %s' % (inner[0].split('::')[-1],
+                         'on every successful path' if okm else 'ONLY ON SOME PATHS'), inner[2], key='%s|S1|%s|always' % (PF, '/'.join(kinds)))
         for kind in kinds:
             key = '%s|S1|%s' % (PF, kind)
             if kind in NO_CTX_WRITE:
@@ -254,6 +261,17 @@ def run(ctx):
                 ws = [w for w in E.writes(a, blocks=reg) if effects.root_of(w[0])[0] == 1]
                 paths = sorted(effects.root_of(w[0])[1] for w in ws)
                 ok = nm in want and paths == sorted(want[nm])
+                # every expected write must happen on every successful path through the arm (and through the callee that performs it)
+                for w in ws:
+                    inner = w[3]
+                    ib = fx.body(inner[0])
+                    okm = ib is not None and q.must_pass(ib, 0 if ib is not a else s, inner[1])
+                    if okm and len(inner) > 3:
+                        outer = inner[-1]
+                        okm = outer[0] == a.name and q.must_pass(a, s, outer[1])
+                    ctx.inst('S2', nm + '#always', okm, 'the write to %s in %s happens %s' % (effects.path_str(w[0]), inner[0].split('::')[-1],
+                             'on every successful path' if okm else 'ONLY ON SOME PATHS (a record can be dropped or the state not advanced)'), inner[2],
+                             key='%s|S2|%s|always|%s' % (a.name, nm, '.'.join(effects.root_of(w[0])[1])))
                 ctx.inst('S2', nm, ok, 'context %s: writes %s; expected exactly %s' % (nm, paths, want.get(nm)),
                          a.blocks[s]['term'].get('span') if a.blocks[s]['term'] else a.span, key='%s|S2|%s' % (a.name, nm))
                 for w in ws:
